@@ -24,7 +24,7 @@ pub enum Act {
     HalfTone(f64),
 }
 impl Act {
-    fn to_json(&self) -> Value {
+    pub fn to_json(&self) -> Value {
         match self {
             Act::Rate(v) => json!(["set_sampling_frequency", v.to_string()]),
             Act::Fperiod(v) => json!(["set_fperiod", v.to_string()]),
@@ -38,7 +38,7 @@ impl Act {
             Act::HalfTone(v) => json!(["set_additional_half_tone", format!("{:e}", v)]),
         }
     }
-    fn from_json(v: &Value) -> Option<Act> {
+    pub fn from_json(v: &Value) -> Option<Act> {
         let name = v[0].as_str()?;
         let f = |x: &Value| x.as_str().and_then(|s| s.parse::<f64>().ok());
         Some(match name {
@@ -193,6 +193,8 @@ pub struct St {
     render: String,
     reference: RefCond,
     bad: Option<String>,
+    /// the calls that led here (not part of the state's identity; used for reporting without path reconstruction)
+    hist: Vec<Act>,
 }
 impl PartialEq for St {
     fn eq(&self, o: &Self) -> bool {
@@ -214,7 +216,9 @@ pub struct CondModel {
     pub acts: Vec<Act>,
     pub depth: u8,
     pub transitions: std::sync::atomic::AtomicU64,
-    pub bad: Mutex<Vec<String>>,
+    /// violating histories as found by the explorer (reported from here, so that a subject whose behaviour is not
+    /// reproducible cannot crash stateright's path reconstruction)
+    pub bad: Mutex<Vec<(Vec<Act>, String)>>,
     /// number of states at the depth bound on which the invariant was evaluated (guards against a silently unchecked last layer)
     pub checked_last: std::sync::atomic::AtomicU64,
     pub monitor: std::sync::Arc<HangMonitor>,
@@ -225,7 +229,10 @@ impl Model for CondModel {
     type Action = Act;
     fn init_states(&self) -> Vec<St> {
         let bad = self.init_ref.mismatch(&self.init).map(|m| format!("initial state: {}", m));
-        vec![St { depth: 0, render: format!("{:?}", self.init), cond: self.init.clone(), reference: self.init_ref.clone(), bad }]
+        if let Some(b) = &bad {
+            self.bad.lock().unwrap().push((vec![], b.clone()));
+        }
+        vec![St { depth: 0, render: format!("{:?}", self.init), cond: self.init.clone(), reference: self.init_ref.clone(), bad, hist: vec![] }]
     }
     fn actions(&self, s: &St, out: &mut Vec<Act>) {
         if s.depth < self.depth && s.bad.is_none() {
@@ -253,7 +260,20 @@ impl Model for CondModel {
                 None
             }
         });
-        Some(St { depth: s.depth + 1, render: format!("{:?}", cond), cond, reference, bad })
+        // a setter called on a copy must not reach the condition it was copied from
+        let bad = bad.or_else(|| {
+            if format!("{:?}", s.cond) != s.render {
+                Some(format!("after {:?}: called on a clone, yet the original condition changed", a))
+            } else {
+                s.reference.mismatch(&s.cond).map(|m| format!("after {:?}: called on a clone, yet on the original {}", a, m))
+            }
+        });
+        let mut hist = s.hist.clone();
+        hist.push(a.clone());
+        if let Some(b) = &bad {
+            self.bad.lock().unwrap().push((hist.clone(), b.clone()));
+        }
+        Some(St { depth: s.depth + 1, render: format!("{:?}", cond), cond, reference, bad, hist })
     }
     fn properties(&self) -> Vec<Property<Self>> {
         vec![Property::always("getters equal the clamped reference", |m: &CondModel, s: &St| {
@@ -314,7 +334,7 @@ pub fn run(tier: Tier) -> i32 {
     let rep: &'static Report = Box::leak(Box::new(Report::new("C20", tier, "model_checking")));
     let monitor = std::sync::Arc::new(HangMonitor::start(rep, "C20 setter history"));
     let depth: u8 = tier.pick(2, 3);
-    rep.set_rule("HIST (stateright BFS): all histories of real Condition setter calls up to the depth bound over the listed value alphabet, on V0 and a generated 2-stream voice; states merged by (depth, Debug rendering of the real Condition); a state is non-trivial if it differs from the initial rendering; invariant: every getter equals the clamped reference after every call");
+    rep.set_rule("HIST (stateright BFS): all histories of real Condition setter calls up to the depth bound over the listed value alphabet, on V0 and a generated 2-stream voice, each call made on a copy of the previous state's Condition (which must stay as it was); states merged by (depth, Debug rendering of the real Condition); a state is non-trivial if it differs from the initial rendering; invariant: every getter equals the clamped reference after every call");
     rep.assume("f64 arguments are the 12-value alphabet {0,-0,±1,.5,1e-7,5e-324,±1e300,2,±24}; usize {0,1,2,48000,MAX}; other values are not explored");
     rep.assume("getter vs reference compared numerically (so -0.0 == 0.0), volume within 1e-9 dB");
     let mut total_states = 0u64;
@@ -347,10 +367,9 @@ pub fn run(tier: Tier) -> i32 {
                 rep.traces.fetch_add(tr, std::sync::atomic::Ordering::Relaxed);
                 rep.eval(tr);
                 rep.nontrivial.fetch_add(uniq.saturating_sub(1), std::sync::atomic::Ordering::Relaxed);
-                for (name, path) in checker.discoveries() {
-                    let actions: Vec<Act> = path.clone().into_actions();
-                    let last = path.last_state().clone();
-                    let what = last.bad.clone().unwrap_or_default();
+                let found = checker.model().bad.lock().unwrap().clone();
+                for (actions, what) in found {
+                    let name = "getters equal the clamped reference";
                     let key = format!("{}:{}", name.replace(' ', "_"), what.split(':').nth(1).unwrap_or("").split_whitespace().next().unwrap_or(""));
                     rep.violation(
                         key,
@@ -385,7 +404,15 @@ pub fn replay(v: &Value) -> i32 {
     }
     for a in v["history"].as_array().cloned().unwrap_or_default() {
         let act = Act::from_json(&a).expect("action");
-        act.apply(&mut cond);
+        // as in the explorer: the call goes to a copy, and the condition it was copied from must not notice
+        let before = format!("{:?}", cond);
+        let mut next = cond.clone();
+        act.apply(&mut next);
+        if format!("{:?}", cond) != before || reference.mismatch(&cond).is_some() {
+            println!("MISMATCH: {:?} was called on a clone, yet the original condition changed: {:?}", act, cond);
+            return 1;
+        }
+        cond = next;
         reference.apply(&act);
         println!("{:?} -> {:?}", act, cond);
         if let Some(m) = reference.mismatch(&cond) {
